@@ -101,7 +101,7 @@ def task(t):
                 fs = ''.join(['(set-option :produce-models true)' if fam.models and 'nomodels' not in opts else '', S.opt_text(opts), '(set-logic %s)' % fam.logic, fam.decls] + ['(assert %s)' % pool[i] for i in active] + ['(check-sat)'])
                 if S.confirm(script, (), pred, cls=('c04', famname, opts, piece, want)) and S.confirm(fs, (), lambda x: S.blocks(x.out)[:1] == [want], cls=('c04f', famname, opts, want)):
                     sym = 'incremental_%s_fresh_%s' % (piece, want)
-                    rec = {'logic': fam.logic, 'family': fam.name, 'options': sorted(opts), 'symptom': sym, 'input_class': 'history',
+                    rec = {'logic': fam.logic, 'family': fam.name, 'options': sorted(opts), 'engine': S.engine_of(opts), 'symptom': sym, 'input_class': 'history',
                            'history_shape': ','.join(x if not x.startswith('a') else 'assert' for x in hist[:pos + 1]),
                            'what': 'check-sat #%d of the history answers %s, a fresh solver on the same stack %s' % (pos, piece, want)}
                     res['violations'].append((rec, script + '\n; fresh: ' + fs, 'smt2'))
